@@ -10,7 +10,11 @@
 EXTENDS Naturals, Sequences, FiniteSets, TLC
 
 CONSTANTS Family,     \* which workflow
-          ErrCap, Retries, AllowCancel
+          ErrCap, Retries, AllowCancel,
+          DeployWaitChecked, \* FALSE = the engine before the repair of DESIGN 14.1 (deploy stage): after a failed non-blocking
+                          \* receive the step declares itself waiting without looking whether the input arrived meanwhile
+          BlockingErrors  \* TRUE = the engine before the repair of DESIGN 14.1 (reportError): a send into the full error
+                          \* channel blocks while the run lock is held; FALSE = the repaired engine drops the error
 
 Nil == "nil"
 AND == "and"  CAND == "cand"  NONE == "-"
@@ -178,8 +182,8 @@ Apply(acc, who, armDetFor) ==
   /\ outCh' = IF acc.oc # Nil THEN acc.oc ELSE outCh
   /\ LET room == ErrCap - Len(errq)
          n == Len(acc.errs) IN
-     IF n <= room
-       THEN /\ errq' = errq \o acc.errs /\ blocked' = blocked /\ lockHolder' = <<"free">>
+     IF n <= room \/ ~BlockingErrors
+       THEN /\ errq' = errq \o SubSeq(acc.errs, 1, IF n <= room THEN n ELSE room) /\ blocked' = blocked /\ lockHolder' = <<"free">>
             /\ runCtx' = (runCtx \/ acc.cancel)
        ELSE /\ errq' = errq \o SubSeq(acc.errs, 1, room)
             /\ blocked' = <<who, SubSeq(acc.errs, room + 1, n)>> /\ lockHolder' = who
@@ -229,6 +233,13 @@ StepMicro(s) ==
                /\ prevStage' = [prevStage EXCEPT ![s] = stage[s]] /\ stage' = [stage EXCEPT ![s] = m.stage]
                /\ state' = [state EXCEPT ![s] = m.state]
                /\ UNCHANGED <<rl, slotD, slotE, slotR>>
+          [] m.op = "SetA" ->     \* stage entry whose state is decided under the step lock from the input-available flag
+               /\ prevStage' = [prevStage EXCEPT ![s] = stage[s]] /\ stage' = [stage EXCEPT ![s] = m.stage]
+               /\ state' = [state EXCEPT ![s] = IF slotE[s] # "empty" THEN "running" ELSE "waiting_for_input"]
+               /\ UNCHANGED <<rl, slotD, slotE, slotR>>
+          [] m.op = "SetW" ->     \* deploy stage, after the non-blocking receive found nothing
+               /\ state' = [state EXCEPT ![s] = IF DeployWaitChecked /\ slotD[s] = 1 THEN "running" ELSE "waiting_for_input"]
+               /\ UNCHANGED <<rl, prevStage, stage, slotD, slotE, slotR>>
           [] m.op = "SetSt" ->
                /\ state' = [state EXCEPT ![s] = m.state] /\ UNCHANGED <<rl, prevStage, stage, slotD, slotE, slotR>>
           [] m.op = "SC0" ->
@@ -253,7 +264,7 @@ Go(s, p, c) == pend' = [pend EXCEPT ![s] = p] /\ cont' = [cont EXCEPT ![s] = c]
 Idle(s) == pend[s] = <<>>
 TryD(s) == /\ Idle(s) /\ cont[s] = "tryD"
            /\ IF slotD[s] = 1 THEN slotD' = [slotD EXCEPT ![s] = 0] /\ Go(s, <<SetSt("running")>>, "deploy")
-                              ELSE U0(slotD) /\ Go(s, <<SetSt("waiting_for_input")>>, "awaitD")
+                              ELSE U0(slotD) /\ Go(s, <<[op |-> "SetW"]>>, "awaitD")
            /\ UNCHANGED <<rl, stage, state, prevStage, slotE, slotR, stepCtx, closedFlag, conn, exec, execRes, sigNil, sigQ, resQ, wg, execStarted>>
 AwaitD(s) == /\ Idle(s) /\ cont[s] = "awaitD"
              /\ \/ slotD[s] = 1 /\ slotD' = [slotD EXCEPT ![s] = 0] /\ Go(s, <<SetSt("running")>>, "deploy")
@@ -265,7 +276,7 @@ Deploy(s) == /\ Idle(s) /\ cont[s] = "deploy"
              /\ UNCHANGED <<rl, stage, state, prevStage, slotD, slotE, slotR, stepCtx, closedFlag, exec, execRes, sigNil, sigQ, resQ, wg, execStarted>>
 PostDeploy(s) == /\ Idle(s) /\ cont[s] = "postDeploy"
                  /\ IF stepCtx[s] THEN conn' = [conn EXCEPT ![s] = "closed"] /\ Go(s, ClosedEarly("enabling", FALSE), "exit")
-                    ELSE conn' = [conn EXCEPT ![s] = "live"] /\ Go(s, <<Set("enabling", IF slotE[s] # "empty" THEN "running" ELSE "waiting_for_input"), SC(Nil)>>, "awaitE")
+                    ELSE conn' = [conn EXCEPT ![s] = "live"] /\ Go(s, <<[op |-> "SetA", stage |-> "enabling"], SC(Nil)>>, "awaitE")
                  /\ UNCHANGED <<rl, stage, state, prevStage, slotD, slotE, slotR, stepCtx, closedFlag, exec, execRes, sigNil, sigQ, resQ, wg, execStarted>>
 AwaitE(s) == /\ Idle(s) /\ cont[s] = "awaitE"
              /\ \/ slotE[s] = "T" /\ slotE' = [slotE EXCEPT ![s] = "empty"] /\ Go(s, <<F("disabled")>>, "tryR")
@@ -317,9 +328,13 @@ ExecDone(s) == /\ exec[s] = "published" /\ wg' = [wg EXCEPT ![s] = @ - 1] /\ exe
 
 ----------------------------------------------------------------------------
 \* detector: det[s][k] = number of armed checks with k retries left, registered in step s's wait group
-Quiescent == /\ \A s \in Steps : pend[s] = <<>> /\ slotD[s] = 0 /\ slotE[s] = "empty" /\ slotR[s] = 0
-                                 /\ exec[s] \notin {"running", "returned", "published"} /\ resQ[s] = <<>>
-                                 /\ cont[s] \in {"awaitD", "awaitE", "awaitR", "exit", "done"}
+\* A step that has left its lifecycle (cont exit/done: it failed, was closed, or delivered its result) is no pending
+\* work, whatever is still buffered for it or still running on its behalf (an abandoned plugin after a forced close).
+Live(s) == cont[s] \notin {"exit", "done"}
+Quiescent == /\ \A s \in Steps : /\ pend[s] = <<>>
+                                 /\ Live(s) => /\ slotD[s] = 0 /\ slotE[s] = "empty" /\ slotR[s] = 0
+                                                /\ exec[s] # "running" /\ resQ[s] = <<>>
+                                                /\ cont[s] \in {"awaitD", "awaitE", "awaitR"}
              /\ g.ready = {}
 \* some step has a notification (or the state update that precedes it) queued: the window of DESIGN 14.2
 InFlight == \E s \in Steps : pend[s] # <<>>
@@ -333,6 +348,7 @@ DetectorFire(s, k) ==
      ELSE /\ det' = [det EXCEPT ![s][k] = @ - 1]
           /\ fired' = fired \cup {IF Quiescent THEN "quiescent" ELSE IF InFlight THEN "inflight" ELSE "busy"}
           /\ IF Len(errq) < ErrCap THEN errq' = Append(errq, "nosteps") /\ runCtx' = TRUE /\ UNCHANGED <<blocked, lockHolder>>
+             ELSE IF ~BlockingErrors THEN runCtx' = TRUE /\ UNCHANGED <<errq, blocked, lockHolder>>
              ELSE blocked' = <<<<"det", s>>, <<"nosteps">>>> /\ lockHolder' = <<"det", s>> /\ UNCHANGED <<errq, runCtx>>
   /\ UNCHANGED <<g, produced, waitingOutputs, outputDone, outCh, parentCancelled, mainPc, result, termTodo, termCur, panicked>>
   /\ UNCHANGED sv
@@ -413,7 +429,8 @@ FairSpec == Spec /\ WF_vars(MainNext) /\ WF_vars(DetNext) /\ WF_vars(Unblock) /\
 NoPanic == ~panicked
 NoBlockedHolder == ~(blocked # <<>> /\ Len(errq) >= ErrCap /\ mainPc \in {"terminate", "returned"})
 \* a step that shows waiting_for_input has no unread input for the stage it is in
-StateSlotTruthful == \A s \in Steps : state[s] = "waiting_for_input" =>
+\* (a step that left through its cancelled context - cont exit/done - no longer reads; its closing state updates are queued)
+StateSlotTruthful == \A s \in Steps : (state[s] = "waiting_for_input" /\ cont[s] \notin {"exit", "done"}) =>
                         /\ (stage[s] = "deploy" => slotD[s] = 0 \/ cont[s] = "awaitD")   \* transient: the receive is the very next statement
                         /\ (stage[s] = "enabling" => slotE[s] = "empty")
                         /\ (stage[s] = "starting" => slotR[s] = 0)
